@@ -62,6 +62,7 @@ int sm4_ctr_sm3_hmac_main(int argc, char **argv)
 	FILE *outfp = stdout;
 	SM4_CTR_SM3_HMAC_CTX ctx;
 	uint8_t buf[4096];
+	uint8_t outbuf[4096 + SM4_BLOCK_SIZE + SM3_HMAC_SIZE]; // decryption holds data back, its output lags behind the input
 	size_t inlen;
 	size_t outlen;
 
@@ -190,34 +191,34 @@ bad:
 
 	while ((inlen = fread(buf, 1, sizeof(buf), infp)) > 0) {
 		if (enc) {
-			if (sm4_ctr_sm3_hmac_encrypt_update(&ctx, buf, inlen, buf, &outlen) != 1) {
+			if (sm4_ctr_sm3_hmac_encrypt_update(&ctx, buf, inlen, outbuf, &outlen) != 1) {
 				error_print();
 				goto end;
 			}
 		} else {
-			if (sm4_ctr_sm3_hmac_decrypt_update(&ctx, buf, inlen, buf, &outlen) != 1) {
+			if (sm4_ctr_sm3_hmac_decrypt_update(&ctx, buf, inlen, outbuf, &outlen) != 1) {
 				error_print();
 				goto end;
 			}
 		}
-		if (fwrite(buf, 1, outlen, outfp) != outlen) {
+		if (fwrite(outbuf, 1, outlen, outfp) != outlen) {
 			fprintf(stderr, "gmssl %s: output failure : %s\n", prog, strerror(errno));
 			goto end;
 		}
 	}
 
 	if (enc) {
-		if (sm4_ctr_sm3_hmac_encrypt_finish(&ctx, buf, &outlen) != 1) {
+		if (sm4_ctr_sm3_hmac_encrypt_finish(&ctx, outbuf, &outlen) != 1) {
 			error_print();
 			goto end;
 		}
 	} else {
-		if (sm4_ctr_sm3_hmac_decrypt_finish(&ctx, buf, &outlen) != 1) {
+		if (sm4_ctr_sm3_hmac_decrypt_finish(&ctx, outbuf, &outlen) != 1) {
 			error_print();
 			goto end;
 		}
 	}
-	if (fwrite(buf, 1, outlen, outfp) != outlen) {
+	if (fwrite(outbuf, 1, outlen, outfp) != outlen) {
 		fprintf(stderr, "gmssl %s: output failure : %s\n", prog, strerror(errno));
 		goto end;
 	}
@@ -229,6 +230,7 @@ end:
 	gmssl_secure_clear(iv, sizeof(iv));
 	gmssl_secure_clear(&ctx, sizeof(ctx));
 	gmssl_secure_clear(buf, sizeof(buf));
+	gmssl_secure_clear(outbuf, sizeof(outbuf));
 	if (infile && infp) fclose(infp);
 	if (outfile && outfp) fclose(outfp);
 	return ret;
